@@ -22,10 +22,16 @@ below say what an `ok` means: the MODEL state rebuilt from the dump (`tableOf`, 
                                   C14 step theorem applies to the dumped state                    FULL
                                   (the index model allocates chains slot by slot, so dumps with a
                                   multipart table are covered too)
+                checkNoStale d -> Pdb.Index.NoStale (colOf d): every entry of every index table
+                                  (current and queued, whole tables) points to a live value whose
+                                  stored tail continues the recovered key bits; all entries of one
+                                  slot agree on key bits 63..14; one entry per slot and table     FULL
+                                  (`T2_checkNoStale_sound`; driver command `t2 nostale`)
   btree         checkTree d   ->  TreeInv (treeOf d), every dumped node reachable exactly once  FULL
 Values are abstracted to "" (the dump carries no value bytes).
 -/
 import Pdb.Proofs.DumpCheckInv
+import Pdb.Proofs.DumpCheckNoStale
 import Pdb.Props.C04
 
 namespace Pdb.DumpCheck
@@ -131,6 +137,44 @@ theorem C14Dump_index_good (d : ColumnDump) (h : checkIndex d = true) :
   have ok := checkIndex_ok d h
   have hG := ok.good
   exact ⟨hG, hG.slots, fun k op => C09_write_no_panic hG (Or.inl rfl) k op⟩
+
+/-- Soundness of `t2 nostale`: an accepted dump has NO STALE INDEX ENTRY.  Every entry of every
+index table of the dumped column (the current table and every queued older one, whole tables)
+points to the head slot of a live value whose stored key tail continues the key bits recovered
+from the entry (`live`: the key recovered from page, partial key and stored tail hashes to that
+page and partial key); all entries pointing to one slot carry the same key bits 63..14 (`agree`:
+with the stored tail they name one 256-bit key); no table holds two entries for one slot
+(`uniq`). -/
+theorem T2_checkNoStale_sound (d : ColumnDump) (h : checkNoStale d = true) :
+    Index.NoStale (colOf d) :=
+  (nostaleReason_none d ((checkNoStale_iff d).1 h)).noStale
+
+/-- What `ok` means entry by entry, without the model state: the dumped entry `(c, i, e)` of
+table `x` has a live target and is the only entry of `x` with that address. -/
+theorem T2_checkNoStale_entry (d : ColumnDump) (h : checkNoStale d = true) (x : IndexDump)
+    (hx : x ∈ d.index) (y : Nat × Nat × Nat) (hy : y ∈ x.entries) :
+    (∃ tl, (colOf d).tailAt (Entry.address y.2.2 x.bits) = some tl ∧
+      visOf x.bits y.1 y.2.2 % 4 = tl / 2 ^ 206) ∧
+    ∀ z ∈ x.entries, Entry.address z.2.2 x.bits = Entry.address y.2.2 x.bits →
+      (z.1, z.2.1) = (y.1, y.2.1) := by
+  have ok := nostaleReason_none d ((checkNoStale_iff d).1 h)
+  have hf := ok.fine x hx y hy
+  simp only [entryFine, Bool.and_eq_true] at hf
+  obtain ⟨⟨hl, _⟩, hp⟩ := hf
+  constructor
+  · unfold entryLive at hl
+    cases htl : (colOf d).tailAt (Entry.address y.2.2 x.bits) with
+    | none => simp [htl] at hl
+    | some tl => exact ⟨tl, rfl, by simpa [htl] using hl⟩
+  · intro z hz hza
+    have hfz := ok.fine x hx z hz
+    simp only [entryFine, Bool.and_eq_true] at hfz
+    have p1 := hfz.2
+    unfold entrySingle at p1 hp
+    simp only [beq_iff_eq] at p1 hp
+    rw [hza, hp] at p1
+    injection p1 with p1
+    exact p1.symm
 
 /-! ## btree -/
 
@@ -282,6 +326,25 @@ example : ((colOf exColumnM).tier 255).chains = [(1, [2, 3, 4, 5, 6, 7, 8, 9, 10
   decide +kernel
 example := C14Dump_index_good exColumnM (by decide +kernel)
 /- a structural defect is rejected: the same table with its free-list head cut off -/
+/-- `exColumn` right after an index growth: the new current table (17 bits) is still empty, the
+old table is queued -/
+def exColumnQ : ColumnDump := { exColumn with index := ⟨17, []⟩ :: exColumn.index }
+example : checkNoStale exColumn = true := by decide +kernel
+example : checkNoStale exColumnQ = true ∧ (colOf exColumnQ).older.length = 1 := by decide +kernel
+example := T2_checkNoStale_sound exColumnQ (by decide +kernel)
+example : checkNoStale exColumnM = true := by decide +kernel
+/-- an entry left behind for a slot that holds no value any more (address 3 of tier 0) -/
+example : nostaleReason { exColumn with index :=
+    [⟨16, (5393, 2, 4609485291143561472 + 512) :: (exColumn.index.headD ⟨16, []⟩).entries⟩] } =
+    some "stale:0:5393:2" := by decide +kernel
+/-- the same entry twice in one table -/
+example : nostaleReason { exColumn with index :=
+    [⟨16, (5393, 2, 4609485291143561472) :: (exColumn.index.headD ⟨16, []⟩).entries⟩] } =
+    some "dup:0:5393:2" := by decide +kernel
+/-- a second entry for the slot under another partial key (an entry of another key that was not removed) -/
+example : checkNoStale { exColumn with index :=
+    [⟨16, (5393, 2, 2946967164554314240 / 2 ^ 30 * 2 ^ 30 + 4609485291143561472 % 2 ^ 30) ::
+      (exColumn.index.headD ⟨16, []⟩).entries⟩] } = false := by decide +kernel
 example : slotsReason { exTable with lastRemoved := 0 } = some "header" := by decide +kernel
 /-- the same cut made consistently in the header: a slot is neither free nor live -/
 def exCut : TableDump :=
@@ -312,3 +375,5 @@ end Pdb.DumpCheck
 #print axioms Pdb.DumpCheck.C14Dump_index_good
 #print axioms Pdb.DumpCheck.C14Dump_tree_sound
 #print axioms Pdb.DumpCheck.C14Dump_tree_reach
+#print axioms Pdb.DumpCheck.T2_checkNoStale_sound
+#print axioms Pdb.DumpCheck.T2_checkNoStale_entry
